@@ -10,6 +10,8 @@
 -/
 import GoMC.Lemmas.NBTDecode
 import GoMC.Lemmas.NBTSound
+import GoMC.Lemmas.NBTSoundTyped
+import GoMC.Lemmas.NBTFuel
 import GoMC.Lemmas.NBTTyped
 import GoMC.Lemmas.NBTTotal
 import GoMC.Props.DYNBT
@@ -225,6 +227,42 @@ theorem C03_sound_raw (fmt : Format) (s s' : Stream) (v : Val) (name : Bytes)
       s'.failing = s.failing ∧ v = .raw t.tag (encPayload t) ∧ name = docName fmt nm :=
   GoMC.Lemmas.NBTSound.decodeRawF_sound (fuelFor s) fmt s s' v name h
 
+/-- **The typed decoder is sound.** `Decode(&v)` with `v` of ANY type of the universe (`Model/GoVal`: scalars,
+strings, slices, arrays, maps, structs with any tags and embedding, pointers, interfaces, carriers, nested at will)
+holding ANY well-shaped value, with or without `DisallowUnknownFields`, both formats, any source: whenever it
+returns, the bytes it consumed are `encDoc fmt nm t` for a well-formed tree `t` (strings and names below 2^15), the
+name returned is the root name, and what follows the document is left in the source. The only other input a
+destination accepts is a lone End byte ("no value"), and only `dynbt.Value` does. Hence, for typed targets and at
+every nesting depth in one statement: a strict prefix of a document is never reported as decoded, negative lengths
+and unknown tag ids are errors. (`hsn`, `hsnNP`: the same of `StringifiedMessage.UnmarshalNBT`, whose model
+belongs to the SNBT work package; `dynbt.Value`'s decoder is proved sound here: `sndB_dynUnmarshal`.) -/
+theorem C03_sound_typed (cx : Model.Go.SnbtCarrier) (hsnNP : ∀ tag s, (cx.unmarshal tag s).1 ≠ Res.panic)
+    (hsn : ∀ tag, GoMC.Lemmas.NBTSound.SndB (GoMC.Lemmas.NBTSound.PayQ tag) (cx.unmarshal tag))
+    (fmt : Format) (disallow : Bool) (ty : Model.Go.GoType) (old : Model.Go.GoVal) (hold : GoMC.Lemmas.NBTTotal.Good ty old)
+    (s s' : Stream) (v : Model.Go.GoVal) (name : Bytes)
+    (h : Model.Go.decodeInto cx (isNet fmt) disallow ty old s = (Res.ok (v, name), s')) :
+    ∃ nm : Bytes, nm.length < 32768 ∧ name = docName fmt nm ∧ s'.failing = s.failing ∧
+      ((∃ t : NBT, t.WF ∧ S15 t ∧ s.flat = encDoc fmt nm t ++ s'.flat) ∨ s.flat = 0#8 :: s'.flat) :=
+  GoMC.Lemmas.NBTSound.decodeInto_sound cx hsnNP hsn fmt disallow ty old hold s s' v name h
+
+/-- … for a fresh variable (`Decode(&v)` right after `var v T`) -/
+theorem C03_sound_typed_fresh (cx : Model.Go.SnbtCarrier) (hsnNP : ∀ tag s, (cx.unmarshal tag s).1 ≠ Res.panic)
+    (hsn : ∀ tag, GoMC.Lemmas.NBTSound.SndB (GoMC.Lemmas.NBTSound.PayQ tag) (cx.unmarshal tag))
+    (fmt : Format) (disallow : Bool) (ty : Model.Go.GoType) (s s' : Stream) (v : Model.Go.GoVal) (name : Bytes)
+    (h : Model.Go.decodeTyped cx (isNet fmt) disallow ty s = (Res.ok (v, name), s')) :
+    ∃ nm : Bytes, nm.length < 32768 ∧ name = docName fmt nm ∧ s'.failing = s.failing ∧
+      ((∃ t : NBT, t.WF ∧ S15 t ∧ s.flat = encDoc fmt nm t ++ s'.flat) ∨ s.flat = 0#8 :: s'.flat) :=
+  GoMC.Lemmas.NBTSound.decodeInto_sound cx hsnNP hsn fmt disallow ty ty.zero (GoMC.Lemmas.NBTTotal.zero_good ty) s s' v name h
+
+/-- the tree fits the type (the table of B.1): whenever `unmarshal` into a destination of static type `ty` returns,
+the tag is one the type accepts — Byte for `bool` and every integer kind, Short for 16 bits and more, …, Float for
+`float32` and `float64`, the typed arrays only for their element kinds, Compound for maps and structs; pointers are
+followed; an interface, `RawMessage` and `StringifiedMessage` take every tag but End; `dynbt.Value` every tag. -/
+theorem C03_accepts_typed (cx : Model.Go.SnbtCarrier) (disallow : Bool) (fuel : Nat) (ty : Model.Go.GoType)
+    (old : Model.Go.GoVal) (tag : Byte) (s s' : Stream) (v : Model.Go.GoVal)
+    (h : Model.Go.unmarshal cx disallow fuel ty old tag s = (Res.ok v, s')) : GoMC.Lemmas.NBTSound.Accepts ty tag :=
+  GoMC.Lemmas.NBTSound.accepts_unmarshal cx disallow fuel ty old tag s v s' h
+
 /-- Work: a successful `Decode` into a nil `any` performs a number of nested calls and loop iterations that is
 linear in the bytes it CONSUMED, whatever follows them — run with any fuel above `consumed + 1` (one unit per nested
 call / iteration) it returns the same value and stops at the same place. (A failing run stops within
@@ -234,23 +272,63 @@ theorem C03_work_any_partial (fmt : Format) (s s' : Stream) (r : GoAny × Bytes)
     ∃ s'', decodeAnyF fuel (isNet fmt) s = (Res.ok r, s'') ∧ s''.flat = s'.flat ∧ s''.failing = s'.failing :=
   GoMC.Lemmas.NBTSound.decodeAny_work fmt s s' r h fuel hf
 
-/- OPEN: C03_work_d for failing runs and for the reflective (typed) decoders: the number of loop iterations of d on
-   s is at most 2 · (bytes consumed) + c.
-   Proved: for the `any` decoder on every successful run (`C03_work_any_partial`); in the models every recursive call
-   and every iteration of a list / compound / struct loop uses one unit of fuel and the entry points run with
-   fuel = input length + 3 (+ the nesting of the destination type for the typed decoder: pointers are followed
-   without reading), so a model run performs at most that many iterations along any path, and the array loops
-   (`readInts`, `readLongs`, `rawNums`) stop at the first `io.ReadFull` that cannot be satisfied; the fuel is never
-   the reason for an error on a well-formed document (`C01_decode_*`), and the models are compared with the real
-   code on every generated malformed input (a list of 2^31−1 elements on a short input returns an error after one
-   iteration in both). Missing: "bytes consumed" instead of "input length" for failing runs (a progress lemma
-   threaded through the loops).
+/-! ### the fuel of the models never decides an outcome ("never loops without consuming input")
 
-   OPEN: C03_sound_d for the typed decoder (`unmarshal` over the Go type universe: ok ⇒ the consumed bytes are a
-   well-formed document). Proved: for the `any` and the `RawMessage` / skipping decoders (`C03_sound_any`,
-   `C03_sound_raw`) — every typed destination reads scalars, strings, lists and compounds through the same
-   primitives, and an `any` / `RawMessage` / unknown field inside a typed destination goes through these two —; the
-   typed decoder itself has the local theorems (`C03_unknown_tag_*`, `C03_neg_len_*`) and totality. -/
+One unit of fuel per nested call and per loop iteration. Fuel independence above a bound IS the work bound: no run
+performs more nested calls and iterations than the bound. -/
+
+/-- `Decode` into a nil `any`, EVERY run — successful or failing: with any fuel above the input length + 3 the model
+returns the same outcome and leaves the same source as the entry point. No run performs more than
+`input length + 3` nested calls and loop iterations. -/
+theorem C03_fuel_any (net : Bool) (s : Stream) (fuel : Nat) (hf : fuelFor s ≤ fuel) : decodeAnyF fuel net s = decodeAny net s :=
+  GoMC.Lemmas.NBTFuel.decodeAny_indep net s fuel hf
+
+/-- the same for `unmarshal` into `any` and for `rawRead` (skipping, `RawMessage`) at any position of a document -/
+theorem C03_fuel_any_value (tag : Byte) (s : Stream) (fuel : Nat) (hf : s.flat.length + 3 ≤ fuel) :
+    unmarshalAny fuel tag s = unmarshalAny (s.flat.length + 3) tag s :=
+  GoMC.Lemmas.NBTFuel.unmarshalAny_indep tag s fuel hf
+theorem C03_fuel_raw (tag : Byte) (s : Stream) (fuel : Nat) (hf : s.flat.length + 3 ≤ fuel) :
+    rawRead fuel tag s = rawRead (s.flat.length + 3) tag s :=
+  GoMC.Lemmas.NBTFuel.rawRead_indep tag s fuel hf
+
+/-- the typed decoder, every successful run: with any fuel above the one the entry point takes, `Decode` returns the
+same value and the same name and stops at the same place -/
+theorem C03_fuel_typed_partial (cx : Model.Go.SnbtCarrier) (net d : Bool) (ty : Model.Go.GoType) (old : Model.Go.GoVal)
+    (s s' : Stream) (r : Model.Go.GoVal × Bytes) (h : Model.Go.decodeInto cx net d ty old s = (Res.ok r, s'))
+    (fuel : Nat) (hf : Model.Go.typedFuel s ty old ≤ fuel) :
+    (do let (t, name) ← readHead net; let v ← Model.Go.unmarshal cx d fuel ty old t; Pure.pure (v, name) : Rd (Model.Go.GoVal × Bytes)) s
+      = (Res.ok r, s') :=
+  GoMC.Lemmas.NBTFuel.decodeInto_any_fuel cx net d ty old s s' r h fuel hf
+
+/-- … and therefore the ENTRY POINTS are extension stable, with the fuel they choose from their input — not only the
+decoders at a fixed fuel: a successful `Decode` never depends on what follows the bytes it consumed. (What the
+registry of decoders of C08 / C09 needs of an NBT-based field.) -/
+theorem C03_extStable_typed_entry (cx : Model.Go.SnbtCarrier) (hsn : ∀ tag, Rd.ExtStable (cx.unmarshal tag))
+    (net d : Bool) (ty : Model.Go.GoType) (old : Model.Go.GoVal) : Rd.ExtStable (Model.Go.decodeInto cx net d ty old) :=
+  GoMC.Lemmas.NBTFuel.extStable_decodeInto cx hsn net d ty old
+theorem C03_extStable_typed_fresh (cx : Model.Go.SnbtCarrier) (hsn : ∀ tag, Rd.ExtStable (cx.unmarshal tag))
+    (net d : Bool) (ty : Model.Go.GoType) : Rd.ExtStable (Model.Go.decodeTyped cx net d ty) :=
+  GoMC.Lemmas.NBTFuel.extStable_decodeTyped cx hsn net d ty
+theorem C03_extStable_any_entry (net : Bool) : Rd.ExtStable (decodeAny net) :=
+  GoMC.Lemmas.NBTFuel.extStable_decodeAny net
+
+/-- dynbt: every run is the same with any fuel above the input length + 2 (re-export) -/
+theorem C03_fuel_dyn : type_of% @GoMC.Props.DYNBT.DYNBT_fuel_irrelevant := @GoMC.Props.DYNBT.DYNBT_fuel_irrelevant
+
+/- OPEN: C03_work_d for FAILING runs of the reflective (typed) decoder.
+   Proved: every run of the `any`, `RawMessage` / skipping and dynbt decoders (`C03_fuel_any`, `C03_fuel_raw`,
+   `C03_fuel_dyn`: the same outcome with any fuel above input length + 3, i.e. at most that many nested calls and
+   iterations); every successful run of the typed decoder (`C03_fuel_typed_partial`), with the entry points
+   extension stable (`C03_extStable_typed_entry`); for the `any` decoder also the bound in the bytes CONSUMED on
+   successful runs (`C03_work_any_partial`). In the typed decoder a pointer and an interface are followed without
+   reading (one unit of fuel, no byte), so the bound for failing runs needs the potential "bytes left + pointers
+   still to follow in the destination", whose second term changes as the struct loop replaces field values: not
+   done. (The typed entry point runs with input length + 3 + the nesting of type and prior value; by
+   `C03_total_typed` it never panics, and a model run performs at most that many iterations by construction.)
+
+   `C03_sound_d` is proved for every entry point: `C03_sound_any`, `C03_sound_raw`, `C03_sound_typed` (and
+   `sndB_dynUnmarshal` for dynbt inside it). Left as a hypothesis: the same for the SNBT walker
+   (`StringifiedMessage.UnmarshalNBT`), whose model is the SNBT work package's. -/
 
 
 /-! ### the other entry points the property lists: `dynbt.Value`, `StringifiedMessage`, `RawMessage.String`
